@@ -428,6 +428,23 @@ def run_case(case):
                 evals += 1
                 if not NL.close(got, want, 1e-7):
                     vios.append(dict(sig="value:sampler", tags=tags, detail="sampler at t=%g gives %s, the polynomial of integrator step %d gives %s" % (tq, np.round(got, 6), i, np.round(want, 6)))); break
+            # the numeric route: sol.sampler(e)(t) at the solution's own gist (a solver-free solution object stands for
+            # the solver's decision vector) = the symbolic sampler at (gist, t); sol.gist = [decision vector; parameters]
+            if not vios:
+                from rockit.solution import OcpSolution
+                from rockit.direct_method import OptiSolWrapper
+                from .c07 import FakeSol
+                sol = OcpSolution(OptiSolWrapper(nlp.opti, FakeSol(nlp, w)), r.ocp)
+                ssm = sol.sampler(x)
+                g_sol = np.asarray(sol.gist, dtype=float).reshape(-1)
+                if g_sol.shape != gist.shape or not NL.close(g_sol, gist, 1e-12):
+                    vios.append(dict(sig="value:sol.gist", tags=tags, detail="sol.gist differs from [decision vector; parameter values] (%d vs %d entries)" % (g_sol.size, gist.size)))
+                for tq in lattice[1::2]:
+                    got = np.array(ssm(float(tq))).reshape(-1)
+                    want = np.array(smp(gist, float(tq))).reshape(-1)
+                    evals += 1
+                    if got.shape != want.shape or not NL.close(got, want, 1e-9):
+                        vios.append(dict(sig="value:sol.sampler", tags=tags, detail="sol.sampler(x)(%g) = %s, sampler(x)(gist, t) = %s" % (tq, np.round(got, 6), np.round(want, 6)))); break
             # a second sampler: the control of the interval that contains the query time, time itself, their product with
             # the state polynomial (query times strictly inside integrator steps: no ambiguity at the nodes)
             if d["control"] != "none" and np.all(np.diff(ti) > 1e-9):
